@@ -21,7 +21,35 @@ package types
 //@   loop 0 invariant forall i int, j int :: 0 <= i && i < j && j < $i ==> pkBytes(val(validators[i].ConsensusPubkey).cachedValue) != pkBytes(val(validators[j].ConsensusPubkey).cachedValue)
 //@   assigns \nothing
 
+//@ func (BridgeInfo) Validate
+//@   let c := info.BridgeConfig
+//@   ensures err == nil ==> info.BridgeId != 0 && len(info.BridgeAddr) > 0 && c.FinalizationPeriod > 0                              // C16,C05: bridge_info_well_formed
+//@   ensures info.BridgeId != 0 && len(info.BridgeAddr) > 0 && len(c.Proposer) > 0 && len(c.Challenger) > 0 && (c.BatchInfo.ChainType == 1 || c.BatchInfo.ChainType == 2) && len(c.BatchInfo.Submitter) > 0
+//@        && c.FinalizationPeriod > 0 && c.SubmissionInterval != 0 && c.SubmissionStartHeight != 0 ==> err == nil                  // C16: l1_addresses_are_not_decoded_with_the_l2_codec
+//@   assigns \nothing
+
+//@ func (Params) Validate
+//@   ensures err == nil ==> addrOK(ac, p.Admin) && p.MaxValidators != 0 && (forall j int :: 0 <= j && j < len(p.BridgeExecutors) ==> addrOK(ac, p.BridgeExecutors[j]))   // C16,C12: params_well_formed
+//@   ensures addrOK(ac, p.Admin) && p.MaxValidators != 0 && decCoinsValid(p.MinGasPrices) && (forall j int :: 0 <= j && j < len(p.BridgeExecutors) ==> addrOK(ac, p.BridgeExecutors[j]))
+//@        && (forall j int :: 0 <= j && j < len(p.FeeWhitelist) ==> addrOK(ac, p.FeeWhitelist[j])) ==> err == nil                  // C16: every_well_formed_params_accepted
+//@   loop 0 invariant 0 <= $i && $i <= len(p.BridgeExecutors)
+//@   loop 0 invariant forall j int :: 0 <= j && j < $i ==> addrOK(ac, p.BridgeExecutors[j])
+//@   loop 1 invariant 0 <= $i && $i <= len(p.FeeWhitelist)
+//@   loop 1 invariant forall j int :: 0 <= j && j < $i ==> addrOK(ac, p.FeeWhitelist[j])
+//@   assigns \nothing
+
 //@ func ValidateGenesis
+//@   let bi := val(data.BridgeInfo)
+//@   let bc := val(data.BridgeInfo).BridgeConfig
+//@   let pr := data.Params
+//@   ensures (forall i int :: 0 <= i && i < len(data.Validators) ==> implements(val(data.Validators[i].ConsensusPubkey).cachedValue, "github.com/cosmos/cosmos-sdk/crypto/types.PubKey"))
+//@        && (forall i int, j int :: 0 <= i && i < j && j < len(data.Validators) ==> pkBytes(val(data.Validators[i].ConsensusPubkey).cachedValue) != pkBytes(val(data.Validators[j].ConsensusPubkey).cachedValue))
+//@        && data.NextL2Sequence >= 1
+//@        && (data.BridgeInfo != nil ==> bi.BridgeId != 0 && len(bi.BridgeAddr) > 0 && len(bc.Proposer) > 0 && len(bc.Challenger) > 0 && (bc.BatchInfo.ChainType == 1 || bc.BatchInfo.ChainType == 2) && len(bc.BatchInfo.Submitter) > 0
+//@              && bc.FinalizationPeriod > 0 && bc.SubmissionInterval != 0 && bc.SubmissionStartHeight != 0)
+//@        && (forall j int :: 0 <= j && j < len(data.DenomPairs) ==> validDenom(data.DenomPairs[j].Denom))
+//@        && addrOK(ac, pr.Admin) && pr.MaxValidators != 0 && decCoinsValid(pr.MinGasPrices) && (forall j int :: 0 <= j && j < len(pr.BridgeExecutors) ==> addrOK(ac, pr.BridgeExecutors[j]))
+//@        && (forall j int :: 0 <= j && j < len(pr.FeeWhitelist) ==> addrOK(ac, pr.FeeWhitelist[j])) ==> err == nil                // C16: every_well_formed_genesis_is_accepted (an honest export validates; L1 addresses of the bridge info are free-form)
 //@   ensures err == nil ==> data.NextL2Sequence >= 1                                                                               // C16: sequence_starts_at_one
 //@   ensures err == nil ==> forall j int :: 0 <= j && j < len(data.DenomPairs) ==> validDenom(data.DenomPairs[j].Denom)             // C16: denoms_valid
 //@   ensures err == nil && data.BridgeInfo != nil ==> val(data.BridgeInfo).BridgeId != 0                                            // C16: bridge_info_id
